@@ -69,4 +69,39 @@ theorem cat_arith_ranges (s : Rp) (hinv : Inv s) (curr : Nat) (hc : curr ≤ 63)
         Nat.mul_le_mul (by omega) h480
     _ = 53280 := rfl
 
+/-- The size arithmetic of the code-3 branch WITH extensions (repacketizer.c:271-299): `ext_len` is what
+    `opus_packet_extensions_generate(NULL, maxlen - tot_size, …)` returned (so `0 ≤ ext_len ≤ maxlen - tot`),
+    `pad_amount`, `nb_255s`, the re-check `tot_size + ext_len + nb_255s + 1 > maxlen`, `ext_begin`,
+    `ones_begin`, the last length byte and the final `tot_size`.  No `opus_int32` wrap when
+    `maxlen ≤ 2139062142` (= 2^31 - 8421506, tight: see `ext_arith_overflow_example`; any `ext_len`), or when
+    `ext_len ≤ 2^30` (any `opus_int32` `maxlen`). -/
+theorem ext_arith_ranges (tot maxlen extLen : Int) (pad : Bool) (ht : 2 ≤ tot ∧ tot ≤ 61298) (hm : I32 maxlen)
+    (hfit : tot ≤ maxlen) (he : 0 ≤ extLen ∧ extLen ≤ maxlen - tot)
+    (hbound : maxlen ≤ 2139062142 ∨ extLen ≤ 1073741824) :
+    let amount := if pad then maxlen - tot else extLen + extLen / 254 + 1
+    let nb := (amount - 1) / 255
+    I32 (maxlen - tot) ∧ I32 (extLen / 254) ∧ I32 (extLen + extLen / 254) ∧ I32 amount ∧ I32 (amount - 1) ∧ I32 nb ∧
+    I32 (tot + extLen) ∧ I32 (tot + extLen + nb) ∧ I32 (tot + extLen + nb + 1) ∧
+    I32 (tot + amount) ∧ I32 (tot + amount - extLen) ∧ I32 (tot + nb + 1) ∧
+    I32 (255 * nb) ∧ I32 (amount - 255 * nb - 1) := by
+  unfold I32 at *
+  cases pad
+  · simp only [Bool.false_eq_true, if_false]; omega
+  · simp only [if_true]; omega
+
+/-- The bound is tight: one more byte of `maxlen` and (without `pad`, extension payload filling the buffer)
+    the sum of the re-check `tot_size + ext_len + nb_255s + 1` is `2^31`; and at `maxlen = INT32_MAX` with `pad` the sum of the
+    re-check leaves `opus_int32` as well.  (Reaching either needs more than 2 GB of extension payload; what the
+    C code does then is signed overflow, i.e. undefined behaviour — outside the model.) -/
+theorem ext_arith_overflow_example :
+    (let maxlen : Int := 2139062143
+     let tot : Int := 2
+     let extLen : Int := maxlen - tot
+     ¬ I32 (tot + extLen + (extLen + extLen / 254 + 1 - 1) / 255 + 1)) ∧
+    (let maxlen : Int := 2147483647
+     let tot : Int := 2
+     let extLen : Int := maxlen - tot
+     ¬ I32 (tot + extLen + (maxlen - tot - 1) / 255 + 1)) := by
+  unfold I32; decide
+
 end Opus.RepackProofs
